@@ -155,6 +155,16 @@ func RepExprs(yield func(name string, x X)) {
 	yield("float-exp-neg", Float("1.5E-3"))
 	yield("string-empty", Str(""))
 	yield("string-unicode", Str("naïve ☃"))
+	yield("string-backslash", StrRaw(`'C:\\temp\\new'`, `C:\temp\new`))
+	yield("string-backslash-percent", StrRaw(`'50\\%'`, `50\%`))
+	yield("string-escape-n", StrRaw(`'a\nb'`, "a\nb"))
+	yield("string-semicolon", Str("a;b"))
+	yield("string-comment-marks", Str("a -- b /* c */"))
+	yield("string-double-quote", Str(`say "hi"`))
+	yield("string-like-wildcards", Str("50%_x"))
+	yield("float-exp-upper-int", Float("2E3"))
+	yield("float-exp-upper-int-neg", Float("25E-3"))
+	yield("float-exp-plus", Float("1.5e+3"))
 	yield("add", Bin("+", Col("c1"), Int("1")))
 	yield("mul-add", Bin("+", Bin("*", Col("c1"), Col("c2")), Int("1")))
 	yield("add-mul-parens", Bin("*", Bin("+", Col("c1"), Col("c2")), Int("2")))
